@@ -76,6 +76,41 @@ pub fn workload(tier: Tier) -> Vec<Work> {
             }
         }
     }
+    // B1b: two literal-taking statements in one program: the first with a small in-range literal,
+    // the second at the boundaries of ITS field and of the FIRST statement's field (a range
+    // check that remembers anything from the previous literal shows here), in both orders
+    for k1 in 0..LIT_KINDS {
+        for k2 in 0..LIT_KINDS {
+            let (_, b1, s1) = stmts_with_lit(k1, Lit::dec(0));
+            let (_, b2, s2) = stmts_with_lit(k2, Lit::dec(0));
+            if b1 == b2 && s1 == s2 {
+                continue;
+            }
+            let mut vals: Vec<i32> = Vec::new();
+            for (b, sg) in [(b1, s1), (b2, s2)] {
+                if sg {
+                    let m = 1i32 << (b - 1);
+                    vals.extend([-m - 1, -m, m - 1, m]);
+                } else {
+                    let m = 1i32 << b;
+                    vals.extend([m - 1, m]);
+                }
+            }
+            vals.sort();
+            vals.dedup();
+            for v in vals {
+                if !(-32768..=65535).contains(&v) {
+                    continue;
+                }
+                let (first, _, _) = stmts_with_lit(k1, Lit::dec(1));
+                let (second, _, _) = stmts_with_lit(k2, Lit::dec(v));
+                let mut prog = Program::default();
+                prog.push(None, first);
+                prog.push(None, second);
+                w.push(Work { space: "B1b/two-literal-statements", prog, stack: false, layout: Layout::PLAIN });
+            }
+        }
+    }
     // B2: label distances at and beyond the field limits, and distances congruent to an in-range
     // offset modulo 2^16
     for kind in REF_KINDS {
